@@ -2,5 +2,21 @@
 
 package nathole
 
-func (c *Controller) ZZClients() int  { return len(c.clientCfgs) }
-func (c *Controller) ZZSessions() int { return len(c.sessions) }
+import "github.com/fatedier/frp/zzverif"
+
+func (c *Controller) ZZClients() int {
+	c.mu.RLock()
+	defer c.mu.RUnlock()
+	return len(c.clientCfgs)
+}
+
+func (c *Controller) ZZSessions() int {
+	c.mu.RLock()
+	defer c.mu.RUnlock()
+	return len(c.sessions)
+}
+
+func (c *Controller) ZZGuard() {
+	zzverif.Guard(c.clientCfgs, &c.mu, "nathole.Controller.clientCfgs")
+	zzverif.Guard(c.sessions, &c.mu, "nathole.Controller.sessions")
+}
